@@ -98,6 +98,11 @@ Proof. split; [exact x_fiemap_page_size_ok|exact x_lseek_eof_ok]. Qed.
 Theorem C19_src_next_sparse_segments : forall sd sh len pos, x_next_segment sd sh len pos = next_segment sd sh len pos.
 Proof. exact x_next_segment_ok. Qed.
 
+(* the FIEMAP paging loop of libfs::map_extents, translated from the current source (shape validated statement by
+   statement: early `return Ok(None)`, the two `break`s, the per-extent record, the restart offset), is the model's loop *)
+Theorem C19_src_map_extents_loop : forall fuel fiemap, x_map_extents fuel fiemap = map_extents fuel fiemap.
+Proof. exact x_map_extents_ok. Qed.
+
 Print Assumptions C19_merge_covers.
 Print Assumptions C19_merge_boundaries.
 Print Assumptions C19_merge_adds_only_gaps.
@@ -109,3 +114,4 @@ Print Assumptions C19_segments_cover_data.
 Print Assumptions C19_src_merge_extents.
 Print Assumptions C19_src_fiemap_page_and_eof.
 Print Assumptions C19_src_next_sparse_segments.
+Print Assumptions C19_src_map_extents_loop.
